@@ -300,6 +300,22 @@ pub fn scenarios(prop: Prop) -> Vec<StreamTrace> {
             add(build(prop, &format!("frame_ends_at_2^{}{:+}", k, delta), ps, cuts, vec![], v, "aimed"), &mut out);
         }
     }
+    // 13. complete candidates whose checksum position holds 00 00 00 / ff ff ff (zero-filled or
+    //     erased receive buffers), alone, followed by a frame, and delivered byte by byte
+    for l in [0usize, 1, 2, 5, 40] {
+        for fill in [0x00u8, 0xFF] {
+            let mut dead = vec![0xD3, 0x00, l as u8];
+            dead.extend(std::iter::repeat(0x11u8).take(l));
+            dead.extend_from_slice(&[fill, fill, fill]);
+            let v = ((l + fill as usize) % vmax as usize) as u8 + 1;
+            let n = dead.len();
+            let ps = vec![piece(&format!("nearmiss:trailer_{:02x}:L={}", fill, l), "nearmiss", dead.clone(), false), frame_1005()];
+            add(build(prop, &format!("dead_candidate_trailer_{:02x}_L{}", fill, l), ps, vec![n], vec![], v, "aimed"), &mut out);
+            let ps = vec![piece(&format!("nearmiss:trailer_{:02x}:L={}", fill, l), "nearmiss", dead, false), frame_piece(0, 0, 0)];
+            let total: usize = ps.iter().map(|p| p.bytes.len()).sum();
+            add(build(prop, &format!("dead_candidate_trailer_{:02x}_L{}_bytewise", fill, l), ps, every_byte(total), vec![], v, "every_byte"), &mut out);
+        }
+    }
     // 9. receiver restarts in the middle of a frame
     for v in 1..=vmax {
         let ps = vec![frame_1005(), frame_piece(30, 0, 0x21), frame_1005(), frame_piece(0, 0, 0)];
